@@ -10,7 +10,51 @@
 // ops_test.go (operations + oracles + audits), batch_test.go (concurrent batches), raw_test.go (hand-written
 // protocol speakers, voucher verification), rcscope_test.go (refusals in the relay's service scope).
 //
-// MUTATIONS TRIED (see the end of this comment block for the table filled in after the sensitivity runs).
+// Oracles (all from the statement; weaker readings are written where they are taken, see model_test.go):
+//   reservation-granted/{over-relayed-connection,acl-denied}, reservation-cap-exceeded/{total,per-ip,per-asn,
+//   after-refused-refresh}, reservation-refused-below-caps, reservation-denied-without-cause, voucher-invalid,
+//   reservation-expiry-wrong, reservation-lost, connect-without-reservation/{never-reserved,after-disconnect,
+//   after-expiry-and-collection}, connect-over-relayed-connection, connect-acl-denied, connect-denied-without-cause,
+//   connect-ok/{malformed-request,stop-handshake-failed}, circuit-cap-exceeded/{source,destination,concurrent},
+//   circuit-refused-below-cap, data-limit-exceeded/{forward,backward}, data-delivered-mismatch/*, data-corrupted/*,
+//   duration-limit-not-enforced/{source-end,destination-end}, service-scope-not-released/{memory,streams},
+//   connmgr-tag-left/{relay-v2-hop,relay-reservation}, panic.
+// Not judged (outside the statement, recorded as probes): which non-OK code a byzantine request gets, end-of-stream
+// propagation, the Limited flag / announced limit of real client connections.
+//
+// GENUINE DEFECT found and since fixed in /repo (commit 45e9891): DESIGN section 9 "c2", class
+// C11/reservation-cap-exceeded/after-refused-refresh. Minimal history (MaxReservationsPerIP=1): RESERVE(c0 from ip A) ok;
+// RESERVE(c1 from ip B) ok; c1 opens a new connection from ip A before the old one closes (the relay never sees it
+// disconnected) and refreshes -> RESERVATION_REFUSED; RESERVE(c2 from ip B) -> OK while c1's reservation made from ip B
+// is still live and still serves CONNECTs. Silent on the current tree; re-appears when the fix is reverted (below).
+//
+// MUTATIONS TRIED (one at a time, on a private copy of the instrumented overlay, 8 workers, <= 45 s each) and the
+// classes that reported them:
+//   cleanup() skipped after NewStream to the destination failed   service-scope-not-released/memory, connmgr-tag-left/relay-v2-hop, circuit-refused-below-cap
+//   cleanup() skipped in fail() of the stop handshake              same three classes
+//   cleanup() skipped when the OK reply cannot be written          same three classes (needed the hop plan "reset during the stop handshake")
+//   span.Done() skipped in the early fail()                        service-scope-not-released/memory
+//   rmConn(dest) missing in cleanup()                              connmgr-tag-left/relay-v2-hop, circuit-refused-below-cap
+//   reservation lookup removed in handleConnect                    connect-without-reservation/{never-reserved,after-disconnect,after-expiry-and-collection}
+//   Limit.Data not applied dest->src / src->dest                   data-limit-exceeded/backward / forward
+//   io.LimitReader(src, limit+1)                                   data-limit-exceeded/{forward,backward}
+//   voucher built with Peer = relay                                voucher-invalid
+//   voucher expiry = expire + 1 h                                  voucher-invalid
+//   relayed-connection check removed in handleConnect / Reserve    connect-over-relayed-connection / reservation-granted/over-relayed-connection
+//   expired reservations never collected (gc)                      connect-without-reservation/after-expiry-and-collection, connmgr-tag-left/relay-reservation
+//   UntagPeer("relay-reservation") missing in gc                   connmgr-tag-left/relay-reservation
+//   constraints.cleanupPeer not called on disconnect               reservation-refused-below-caps
+//   delete(r.rsvp, p) not done on disconnect                       connect-without-reservation/after-disconnect
+//   MaxCircuits check removed for destination / source            circuit-cap-exceeded/{destination,source,concurrent}
+//   ACL check removed in handleConnect / handleReserve             connect-acl-denied / reservation-granted/acl-denied
+//   total / per-IP / per-ASN cap off by one                        reservation-cap-exceeded/{total,per-ip,per-asn}
+//   stop status ignored                                            connect-ok/stop-handshake-failed
+//   no stream deadlines for Limit.Duration                         duration-limit-not-enforced/{source-end,destination-end}
+//   refresh does not extend the expiry in Relay.rsvp               reservation-lost (1 worker of 8 in 45 s)
+//   fix 45e9891 reverted (cleanupPeer before the cap checks)       reservation-cap-exceeded/after-refused-refresh
+//   panic placed at the "cannot write OK reply" exit (reach test)  panic
+// Not caught, equivalent: deadline not set on the destination stream only (the source stream's deadline ends the
+// circuit at the same instant and the reset is propagated to both ends).
 package c11
 
 import (
@@ -186,10 +230,10 @@ func run(t *testing.T, tape *simrt.Tape) *common.Outcome {
 	if res.Panic != "" {
 		o.Violate("C11/panic", "%s", res.Panic)
 	}
-	if (res.Stuck || res.StepLimit) && o.Trouble == "" {
+	if (res.Stuck || res.StepLimit) && o.Trouble == "" && res.Panic == "" {
 		o.Trouble = fmt.Sprintf("stuck=%v steplimit=%v", res.Stuck, res.StepLimit)
 	}
-	if len(res.Residue) > 0 && o.Trouble == "" {
+	if len(res.Residue) > 0 && o.Trouble == "" && res.Panic == "" {
 		o.Trouble = fmt.Sprintf("goroutines left after every host was closed: %v", res.Residue)
 	}
 	if f := os.Getenv("C11_FIND"); debug || (f != "" && o.Probes[f] > 0) {
